@@ -198,8 +198,19 @@ pub fn load_findings() -> Vec<Finding> {
     out
 }
 
+/// checks that feed generated programs through the code generator share the exclusion rules
+/// of the miscompilation findings: a finding that lists C02 in `also` applies to all of them
+const SEM_FAMILY: [&str; 11] = ["C01", "C02", "C03", "C04", "C11", "C12", "C13", "C14", "C15", "C17", "C18"];
+
 pub fn findings_for(prop: &str) -> Vec<Finding> {
-    load_findings().into_iter().filter(|f| f.property == prop || f.also.iter().any(|a| a == prop)).collect()
+    load_findings()
+        .into_iter()
+        .filter(|f| {
+            f.property == prop
+                || f.also.iter().any(|a| a == prop)
+                || (SEM_FAMILY.contains(&prop) && (f.property == "C01" || f.property == "C02" || f.also.iter().any(|a| a == "C02")))
+        })
+        .collect()
 }
 
 pub fn read_json(p: &Path) -> Option<Value> {
